@@ -498,6 +498,71 @@ def coq_string(s):
     return '"' + s.replace('"', '""') + '"'
 
 
+# ------------------------------------------------------------------------------------------------
+# which function names the compiler gives an op-code of their own (XPathProcessorImpl.cpp)
+
+CHAR_NAMES = {"HyphenMinus": "-", "FullStop": ".", "LowLine": "_", "Colon": ":"}
+
+
+def char_array(cls, name):
+    fn = {"XPathFunctionTable": "XPath/XPathFunctionTable.cpp", "XPathProcessorImpl": "XPath/XPathProcessorImpl.cpp"}.get(cls)
+    if fn is None:
+        raise AnchorError("function name constant in an unexpected class: %s::%s" % (cls, name))
+    t = srcfacts.strip_comments(srcfacts.read(fn))
+    m = srcfacts.need(r"const\s+XalanDOMChar\s+%s::%s\s*\[\s*\]\s*=\s*\{(.*?)\}\s*;" % (cls, name), t, "%s::%s[]" % (cls, name))
+    items = [x.strip() for x in m.group(1).split(",") if x.strip()]
+    if not items or items[-1] != "0":
+        raise AnchorError("%s::%s is not 0-terminated" % (cls, name))
+    out = ""
+    for it in items[:-1]:
+        mm = re.fullmatch(r"XalanUnicode::char(\w+)", it)
+        if not mm:
+            raise AnchorError("%s::%s: unexpected element %s" % (cls, name, it))
+        k = mm.group(1)
+        if k.startswith("Letter_") and len(k) == 8:
+            out += k[7]
+        elif k in CHAR_NAMES:
+            out += CHAR_NAMES[k]
+        else:
+            raise AnchorError("%s::%s: unknown character constant %s" % (cls, name, k))
+    return out
+
+
+def compiler_fn_table():
+    t = srcfacts.strip_comments(srcfacts.read("XPath/XPathProcessorImpl.cpp"))
+    m = srcfacts.need(r"XPathProcessorImpl::s_functionTable\s*\[\s*\]\s*=\s*\{(.*?)\}\s*;", t, "XPathProcessorImpl::s_functionTable")
+    entries = re.findall(r"\{\s*(\w+)::(\w+)\s*,\s*XPathExpression::(\w+)\s*\}", m.group(1))
+    if len(entries) < 10:
+        raise AnchorError("s_functionTable: entries not recognised")
+    body = srcfacts.function_body(t, r"XPathProcessorImpl::FunctionCall\s*\(\s*\)\s*\{", "XPathProcessorImpl::FunctionCall")
+    cases = dict(re.findall(r"case\s+XPathExpression::(eOP_FUNCTION_\w+)\s*:\s*(Function\w+)\s*\(", body))
+    if "eOP_FUNCTION" not in body or "nameToID" not in body:
+        raise AnchorError("FunctionCall: the general eOP_FUNCTION path was not recognised")
+    rows = []
+    for cls, cname, op in entries:
+        if not op.startswith("eOP_FUNCTION_"):
+            continue            # node type tests
+        if op[4:] not in OPCODES:
+            raise AnchorError("s_functionTable: op-code %s is unknown to the model" % op)
+        name = char_array(cls, cname)
+        if op not in cases:
+            continue            # no case in FunctionCall: compiled through the general eOP_FUNCTION path
+        fb = srcfacts.function_body(t, r"XPathProcessorImpl::%s\s*\([^)]*\)\s*\{" % cases[op], "XPathProcessorImpl::" + cases[op])
+        if not re.search(r"appendOpCode\s*\(\s*XPathExpression::%s\s*\)" % op, fb):
+            raise AnchorError("%s does not append %s" % (cases[op], op))
+        rep = re.findall(r"replaceOpCode\s*\(\s*opPos\s*,\s*XPathExpression::(\w+)\s*,\s*XPathExpression::(\w+)\s*\)", fb)
+        alt = None
+        if rep:
+            if len(rep) != 1 or rep[0][0] != op or rep[0][1][4:] not in OPCODES or not re.search(r"if\s*\(\s*argCount\s*==\s*1\s*\)", fb):
+                raise AnchorError("%s: unexpected replaceOpCode" % cases[op])
+            alt = rep[0][1]
+        rows.append((name, op[4:], alt[4:] if alt else None))
+    for op in cases:
+        if op not in [e[2] for e in entries]:
+            raise AnchorError("FunctionCall has a case for %s that s_functionTable never produces" % op)
+    return rows
+
+
 def gen_exec():
     objs = load_ast()
     fns = {}
@@ -533,7 +598,7 @@ def gen_exec():
     shapes = body_shapes(objs)
     out = HEADER
     out += "(* from the clang AST of src/xalanc/XPath/XPath.cpp: the six switch statements of XPath::executeMore *)\n"
-    out += "From Coq Require Import List String.\nRequire Import XV.ExecArms.\nImport ListNotations.\nLocal Open Scope string_scope.\n\n"
+    out += "From Coq Require Import NArith List String.\nRequire Import XV.ExecArms.\nImport ListNotations.\nLocal Open Scope string_scope.\n\n"
     for e in ENTRIES:
         out += "(* executeMore(%s): %d case labels *)\n" % (e, len(tables[e]))
         out += "Definition arm_%s (op : opcode) : arm :=\n  match op with\n" % e
@@ -547,6 +612,12 @@ def gen_exec():
     out += "Definition helper_shapes : list (string * string) := [\n"
     out += ";\n".join("  (%s, %s)" % (coq_string(k), coq_string(shape_digest(v))) for k, v in sorted(shapes.items()))
     out += "\n].\n"
+    rows = compiler_fn_table()
+    out += "\n(* XPathProcessorImpl::s_functionTable + FunctionCall(): function names that are compiled to an op-code of\n   their own: (name as UTF-16 code units, op-code appended, op-code it is replaced by when the call has one argument) *)\n"
+    out += "Definition compiler_fn_table : list (list N * opcode * option opcode) := [\n"
+    out += ";\n".join("  ([%s]%%N, OP_%s, %s)  (* %s *)" % ("; ".join(str(ord(ch)) for ch in n), a, ("Some OP_" + b) if b else "None", n) for n, a, b in rows)
+    out += "\n].\n"
+    facts["compiler_fn_table"] = rows
     facts["nodes_post_check"] = post_check
     facts["shapes"] = {k: shape_digest(v) for k, v in shapes.items()}
     return out, facts
